@@ -369,5 +369,13 @@ def r12_7(ctx):
                 "an option that disappeared must be flagged under the name auto.conf recorded")
 
 
+def r12_8(ctx):
+    """R12.8 auto.conf records the value the next sync compares with: Symbol.config_string writes the evaluated value as it is
+    (C02 R02.11a) - a writer-side re-spelling (a forced 0x prefix) never equals str_value again and the option is flagged
+    on every sync."""
+    from . import c02
+    from .common import delegate
+    delegate(ctx, c02.r02_11, lambda c: c.startswith("Symbol.config_string/"))
+
 def rules():
-    return [("R12.7", r12_7, 2), ("R12.1", r12_1, 6), ("R12.2", r12_2, 2), ("R12.3", r12_3, 1), ("R12.4", r12_4, 6), ("R12.5", r12_5, 4), ("R12.6", r12_6, 4)]
+    return [("R12.8", r12_8, 1), ("R12.7", r12_7, 2), ("R12.1", r12_1, 6), ("R12.2", r12_2, 2), ("R12.3", r12_3, 1), ("R12.4", r12_4, 6), ("R12.5", r12_5, 4), ("R12.6", r12_6, 4)]
